@@ -259,8 +259,7 @@ def oracle(case, outs):
                     if a["op"] == "prepend" and new[:1] != [v]:
                         yield ("prepend_first", None, "action %d: %r not first in %r" % (i, v, new))
                     if a["op"] == "append" and new[-1:] != [v]:
-                        cls = "D8" if v in old else None
-                        yield ("append_last", cls, "action %d: %r not last in %r" % (i, v, new))
+                        yield ("append_last", None, "action %d: %r not last in %r" % (i, v, new))
                     if spec["pre"] and not (after or "").startswith(delim):
                         yield ("leading_empty_element", None, "action %d: %r" % (i, after))
                     if spec["app"] and not (after or "").endswith(delim):
